@@ -686,6 +686,13 @@ impl Kanata {
         self.unshifted_keys.clear();
         self.waiting_for_idle.clear();
         self.vkeys_pending_release.clear();
+        // What was typed under the replaced configuration is not there for `rpt` to repeat, and a
+        // recording or replay that was in progress belonged to the replaced layout. Recorded
+        // dynamic macros are kept: they hold physical key events, which the new configuration
+        // interprets like typed ones.
+        self.last_pressed_key = KeyCode::No;
+        self.dynamic_macro_record_state = None;
+        self.dynamic_macro_replay_state = None;
         self.loaded_cfg_idx = self.cur_cfg_idx;
         log::info!("Live reload successful");
         #[cfg(feature = "tcp_server")]
